@@ -418,7 +418,8 @@ def concretize(p, perm=0, style=None):
                     c.attrfmt[(i, n)] = (space, sa["n"], eq, quote, val)
                 else:
                     kind, aname, parts = ent
-                    c.add(" " + aname + '="')
+                    # statement attributes on lines of their own in some plans (line numbers of error sites)
+                    c.add(("\n    " if (perm % 100) % 2 == 1 else " ") + aname + '="')
                     for part in parts:
                         if isinstance(part, tuple):
                             _, site, txt = part
